@@ -225,9 +225,10 @@ def y1(rep, src):
             if fs2 and fs2[1] == "pu":
                 sides_in_pu.add(fs2[0])
     branches_on_operator = any(m["e"]["k"] == "path" and m["e"]["p"] in ("operator",) or "operator" in show(m["e"], 0) for m in find(f.body, "match") if not show(m["e"], 0).endswith("strategy"))
-    rep.instance("Y7", key + "@non-null-unit", {"unit_id_read_from": sorted(sides_in_pu), "branches_on_join_operator": bool(branches_on_operator)})
+    key7 = key + "@non-null-unit:" + "/".join(sorted(sides_in_pu))
+    rep.instance("Y7", key7, {"unit_id_read_from": sorted(sides_in_pu), "branches_on_join_operator": bool(branches_on_operator)})
     if sides_in_pu != {"left", "right"} and not branches_on_operator:
-        rep.violation("Y7", key + "@non-null-unit", "the output unit id is read from the %s side only, for every join operator: unmatched rows kept by an outer join of the other side get a NULL unit id" % "/".join(sorted(sides_in_pu)), f.where())
+        rep.violation("Y7", key7, "the output unit id is read from the %s side only, for every join operator: unmatched rows kept by an outer join of the other side get a NULL unit id" % "/".join(sorted(sides_in_pu)), f.where())
 
 
 def strategy_arms(rep, rid, f, key):
